@@ -722,6 +722,9 @@ func (ex *Exec) valuesEqual(st *State, t types.Type, a, b Value) *Term {
 		}
 		ex.unsupported("pointer comparison")
 	case *VIface:
+		if _, ok := b.(*VRType); ok {
+			return Neq(x.Tag, IntLit(0)) // only nil vs type comparisons reach here
+		}
 		y := b.(*VIface)
 		return ex.ifaceEq(st, x, y)
 	case *VSlice:
@@ -752,6 +755,13 @@ func (ex *Exec) valuesEqual(st *State, t types.Type, a, b Value) *Term {
 	case *VOpaque:
 		y := b.(*VOpaque)
 		return Eq(x.ID, y.ID)
+	case *VRType:
+		switch y := b.(type) {
+		case *VRType:
+			return ex.rtypeEq(x, y)
+		case *VIface:
+			return False // nil interface vs a type
+		}
 	}
 	ex.unsupported("comparison of %T values", a)
 	return nil
